@@ -45,6 +45,10 @@ func groupsFor(t tables.Table) [][]int {
 		return [][]int{{1, 5}}
 	case "Lag":
 		return [][]int{{2}, {4}}
+	case "RatingCurvePartition":
+		if len(t.Params) == 5 { // the regular tables together, and the 20-point table (added in build) shared by all cells
+			return [][]int{{0, 1, 2, 3}, {4}}
+		}
 	case "Storage":
 		if len(t.Params) == 3 { // the two regular tables together, and the descending table (added in build) shared by all cells
 			return [][]int{{0, 1}, {2}}
@@ -207,6 +211,19 @@ func allTables() []tables.Table {
 			// a table tabulated from full to empty (descending volumes): the kernel treats it deterministically, and a
 			// shared parameter set must stay read-only whatever the table looks like
 			t.Params = append(append([][]float64{}, t.Params...), tables.StorageParams(86400, []float64{10, 5, 0}, []float64{3e6, 1e6, 0}, []float64{0, 2e5, 4e5}, []float64{0, 0, 0}, []float64{0, 20, 80}))
+		}
+		if t.Model == "RatingCurvePartition" {
+			// a long rating table (20 points) shared by all cells: a lookup that treats long tables differently (a search
+			// hint, a cache) must not share anything between the cells
+			rc := []float64{20}
+			for i := 0; i < 20; i++ {
+				rc = append(rc, 6*float64(i)) // 0 .. 114: every letter (0, 0.3, 7, 100) is inside the table
+			}
+			for i := 0; i < 20; i++ {
+				rc = append(rc, 1-float64(i)/19)
+			}
+			t.Params = append(append([][]float64{}, t.Params...), rc)
+			t.PNames = append(append([]string{}, t.PNames...), "n=20")
 		}
 		out = append(out, t)
 	}
